@@ -449,6 +449,14 @@ UTF8 = ops_family("utf8", "^TestPureUTF8$", ["utf8"], rule="Metadata.validUTF8 v
                   nontrivial=lambda op, im, mo: "valid=0" in im, n_quick=3000, n_thorough=100000)
 
 
+def IDENTITY(prop):
+    return world_family("identity", "^TestW2Identity$", "identity", MON.IdentityMonitor, prop, "id.init",
+                        "W2 identity: grpc server with a stream interceptor planting a context value, two forward tunnels with distinct opening metadata and a "
+                        "tunnel nested inside one of them; handlers report interceptor value, peer, tunnel metadata (and mutate the copy they got), request "
+                        "metadata; callers check WithTunnelChannel, TunnelChannelFromContext, TunnelMetadataFromOutgoingContext (and mutate the copy)",
+                        20, 400, compare="full")
+
+
 def LIFECYCLE(prop):
     return world_family("lifecycle", "^TestW2Lifecycle$", "lifecycle", MON.LifecycleMonitor, prop, "l.init",
                         "W2 lifecycle: one ReverseTunnelServer with several Serve calls over grpc-go on bufconn, echo and non-reading in-flight RPCs, "
@@ -569,6 +577,15 @@ PROPS = {
                          "Go race detector (supporting evidence and failing-input search only)"],
         "assumptions": ["PARTIAL: the Go memory model, the soundness of the syntactic analysis (aliasing, closures stored and called later are treated as holding no lock), and library code (grpc-go, context) are outside the obligation",
                         "publication-ordered fields (headers, trailers, settings) rely on the order of statements inside the publishing function, which is checked by the hook-level publish family / the L-atomic model, not by the table"],
+    },
+    "C17": {
+        "lean_targets": ["Proofs.Props.C17"],
+        "prop_files": ["Proofs/Props/C17.lean"],
+        "families": [IDENTITY("C17"), REGISTRY("C17")],
+        "side_conditions": ["Proofs.Facts.context_wiring"],
+        "trusted_base": ["Context.lean (contexts as binding stacks, metadata objects in a heap)",
+                         "extractor facts ctxFacts: the context constructions the model describes are found in the source (regenerated every run)"],
+        "assumptions": ["Go's context.WithValue / metadata.MD.Copy semantics; values are compared by identity tags the harness plants"],
     },
     "C16": {
         "lean_targets": ["Proofs.Props.C16"],
